@@ -719,7 +719,7 @@ def r12_copy_and_clone_of_references_agree(ctx):
 
 
 def check(ctx):
-    pass  # r12_copy_and_clone_of_references_agree(ctx): armed together with the repair it reports (see DESIGN section 6)
+    r12_copy_and_clone_of_references_agree(ctx)
     r11_lookahead_is_consumed(ctx)
     r10_checkers_see_the_current_sources(ctx)
     r1_roster_on_the_way(ctx)
